@@ -17,9 +17,11 @@ package simrt
 import (
 	"fmt"
 	"os"
+	"runtime"
 	"runtime/debug"
 	"strings"
 	"sync"
+	"time"
 	"unsafe"
 )
 
@@ -423,6 +425,29 @@ func Yield(desc string) {
 	if s := act; s != nil {
 		s.yield(nil, false, desc)
 	}
+}
+
+// Sleep stands for time.Sleep in instrumented code: no clock is simulated, so
+// inside a run a sleep is just a point where any other task may run.
+//
+//go:norace
+func Sleep(d time.Duration) {
+	if s := act; s != nil {
+		s.yield(nil, false, "time.Sleep")
+		return
+	}
+	time.Sleep(d)
+}
+
+// Gosched stands for runtime.Gosched in instrumented code.
+//
+//go:norace
+func Gosched() {
+	if s := act; s != nil {
+		s.yield(nil, false, "runtime.Gosched")
+		return
+	}
+	runtime.Gosched()
 }
 
 // Block parks the current task until pred holds.  pred is evaluated by the
